@@ -4,6 +4,7 @@ import Pycoin.Model.Electrum
 import Pycoin.Gen.Curves
 import Pycoin.Gen.Networks
 import Pycoin.Spec.BIP32
+import Pycoin.Driver.C08
 /-!
 C09 ops.
 
@@ -215,6 +216,22 @@ def handle1 : Handler := fun op args =>
     let n ← parseNat? n; let cc ← parseHex? cc; let i ← parseInt? i; let pp ← parsePair? pp
     let g' : Gen := { gen with c := { gen.c with n := n } }
     some (showR (fun (r : (Int × Int) × Bytes) => s!"{r.1.1},{r.1.2} {hx r.2}") (subkeyPublicPairChainCodePair g' pp cc i))
+  -- `node.address()`: the class decides the form — BIP32Node p2pkh, BIP49Node p2sh-p2wpkh, BIP84Node p2wpkh
+  -- (the address forms themselves are the C08 model of the "addr" builder: `Addr.keyAddress/bip49Address/bip84Address`)
+  | "bip32_address", [net, n] => do
+    let net ← findNet? net
+    withNode n fun n =>
+      match n.sec with
+      | .error e => "err " ++ e.tag
+      | .ok sec =>
+        let r := match n.kind with
+          | .bip32 => Pycoin.Addr.keyAddress Pycoin.Driver.C08.realEnv net sec
+          | .bip49 => Pycoin.Addr.bip49Address Pycoin.Driver.C08.realEnv net sec
+          | .bip84 => Pycoin.Addr.bip84Address Pycoin.Driver.C08.realEnv net sec
+        match r with
+        | .ok (some t) => "ok " ++ hx t.toUTF8.toList
+        | .ok none => "none"
+        | .error e => "err " ++ e.tag
   | "bip32_spec", [net, k, seed, idxs, pubFirst] => do
     let net ← findNet? net
     let k ← parseKind? k; let seed ← parseHex? seed; let idxs ← parseList? parseNat? idxs; let pubFirst ← parseBool? pubFirst
